@@ -485,3 +485,334 @@ Proof.
   intros D i om Hom. unfold G. apply lehmann_im_formula; [|exact Hom].
   intros t Ht. apply in_gterms in Ht. destruct Ht as [n [m [_ [_ ->]]]]. simpl fst. now rewrite residue_diag.
 Qed.
+
+(** * Imaginary time *)
+
+(** ** fermionic Matsubara frequencies: e^{i omega_n beta} = -1 *)
+Lemma sin_Z_PI : forall k : Z, sin (IZR k * PI) = 0.
+Proof. intros k. apply sin_eq_0_1. now exists k. Qed.
+
+Lemma cos_odd_PI : forall n : Z, cos (IZR (2 * n + 1) * PI) = -1.
+Proof.
+  intros n. rewrite plus_IZR, mult_IZR.
+  replace ((2 * IZR n + 1) * PI) with (2 * (IZR n * PI) + PI) by ring.
+  rewrite neg_cos, cos_2a_sin, sin_Z_PI. ring.
+Qed.
+
+Lemma matsubara_beta : forall beta n, beta <> 0 -> matsubara beta n * beta = IZR (2 * n + 1) * PI.
+Proof. intros beta n Hb. unfold matsubara. field. exact Hb. Qed.
+
+Lemma matsubara_neq_0 : forall beta n, 0 < beta -> matsubara beta n <> 0.
+Proof.
+  intros beta n Hb. unfold matsubara. intros E.
+  assert (H : IZR (2 * n + 1) * PI = 0).
+  { apply (Rmult_eq_compat_r beta) in E. unfold Rdiv in E. rewrite Rmult_assoc, Rinv_l, Rmult_1_r, Rmult_0_l in E; lra. }
+  apply Rmult_integral in H. destruct H as [H|H]; [apply eq_IZR_R0 in H; lia | pose proof PI_RGT_0; lra].
+Qed.
+
+(** ** tau_is_transform, real residue, real and imaginary parts *)
+Section Transform.
+Variables (r P beta om : R).
+Hypothesis Hbeta : 0 < beta.
+Hypothesis Hcos : cos (om * beta) = -1.
+Hypothesis Hsin : sin (om * beta) = 0.
+Hypothesis Hom : om <> 0.
+
+Let A := - r / (1 + exp (- beta * P)).
+Let Fc (tau : R) := A * exp (- tau * P) * (- P * cos (om * tau) + om * sin (om * tau)) / (P ^ 2 + om ^ 2).
+Let Fs (tau : R) := A * exp (- tau * P) * (- P * sin (om * tau) - om * cos (om * tau)) / (P ^ 2 + om ^ 2).
+
+Lemma D2_pos : 0 < P ^ 2 + om ^ 2.
+Proof. assert (0 < om ^ 2) by (apply pow2_gt_0; exact Hom). nra. Qed.
+
+Lemma Fc_derive : forall tau, is_derive Fc tau (A * exp (- tau * P) * cos (om * tau)).
+Proof.
+  intros tau. unfold Fc. auto_derive; [auto|]. pose proof D2_pos. field. lra.
+Qed.
+Lemma Fs_derive : forall tau, is_derive Fs tau (A * exp (- tau * P) * sin (om * tau)).
+Proof.
+  intros tau. unfold Fs. auto_derive; [auto|]. pose proof D2_pos. field. lra.
+Qed.
+
+Lemma closed_form_A : forall tau, term_tR r P beta tau = A * exp (- tau * P).
+Proof. intros tau. rewrite term_tR_closed. unfold A. unfold Rdiv. ring. Qed.
+
+Lemma transform_re_aux :
+  is_RInt (fun tau => term_tR r P beta tau * cos (om * tau)) 0 beta (- r * P / (P ^ 2 + om ^ 2)).
+Proof.
+  apply (is_RInt_ext (fun tau => A * exp (- tau * P) * cos (om * tau))).
+  { intros tau _. now rewrite closed_form_A. }
+  replace (- r * P / (P ^ 2 + om ^ 2)) with (minus (Fc beta) (Fc 0)).
+  - apply (is_RInt_derive Fc).
+    + intros x _. apply Fc_derive.
+    + intros x _. apply (ex_derive_continuous (fun t => A * exp (- t * P) * cos (om * t))). auto_derive; auto.
+  - unfold minus, plus, opp; simpl. unfold Fc. rewrite Hcos, Hsin.
+    replace (- 0 * P) with 0 by ring. replace (om * 0) with 0 by ring. rewrite exp_0, cos_0, sin_0.
+    unfold A. pose proof D2_pos. pose proof (exp_pos (- beta * P)). field. split; lra.
+Qed.
+
+Lemma transform_im_aux :
+  is_RInt (fun tau => term_tR r P beta tau * sin (om * tau)) 0 beta (- r * om / (P ^ 2 + om ^ 2)).
+Proof.
+  apply (is_RInt_ext (fun tau => A * exp (- tau * P) * sin (om * tau))).
+  { intros tau _. now rewrite closed_form_A. }
+  replace (- r * om / (P ^ 2 + om ^ 2)) with (minus (Fs beta) (Fs 0)).
+  - apply (is_RInt_derive Fs).
+    + intros x _. apply Fs_derive.
+    + intros x _. apply (ex_derive_continuous (fun t => A * exp (- t * P) * sin (om * t))). auto_derive; auto.
+  - unfold minus, plus, opp; simpl. unfold Fs. rewrite Hcos, Hsin.
+    replace (- 0 * P) with 0 by ring. replace (om * 0) with 0 by ring. rewrite exp_0, cos_0, sin_0.
+    unfold A. pose proof D2_pos. pose proof (exp_pos (- beta * P)). field. split; lra.
+Qed.
+End Transform.
+
+Lemma term_z_parts : forall a b P om, om <> 0 ->
+  term_z ((a, b), P) (0, om) =
+  ((- a * P + b * om) / (P ^ 2 + om ^ 2), (- a * om - b * P) / (P ^ 2 + om ^ 2)).
+Proof.
+  intros a b P om Hom. rewrite term_z_eq. simpl fst; simpl snd.
+  assert (0 < om ^ 2) by (apply pow2_gt_0; exact Hom).
+  unfold Cdiv, Cinv, Cminus, Cmult, Cplus, Copp, RtoC; simpl. f_equal; field; nra.
+Qed.
+
+Definition cis (x : R) : C := (cos x, sin x).
+
+(** tau_is_transform: per term, the Matsubara value is the Fourier transform over (0, beta) of the
+    imaginary-time formula of the code (both branches), in real and imaginary parts; complex residues.
+    (The inverse direction -- the tau values are determined by the Matsubara values -- is uniqueness of
+    Fourier coefficients and is NOT proved here: trusted.) *)
+Theorem tau_is_transform : forall (t : term) (beta : R) (n : Z), 0 < beta ->
+  let om := matsubara beta n in
+  is_RInt (fun tau => Re (term_t t beta tau * cis (om * tau))%C) 0 beta (Re (term_z t (0, om))) /\
+  is_RInt (fun tau => Im (term_t t beta tau * cis (om * tau))%C) 0 beta (Im (term_z t (0, om))).
+Proof.
+  intros [[a b] P] beta n Hb om.
+  assert (Hom : om <> 0) by (apply matsubara_neq_0; exact Hb).
+  assert (Hc : cos (om * beta) = -1).
+  { unfold om. rewrite matsubara_beta by lra. apply cos_odd_PI. }
+  assert (Hs : sin (om * beta) = 0).
+  { unfold om. rewrite matsubara_beta by lra. apply sin_Z_PI. }
+  rewrite term_z_parts by exact Hom. unfold Re, Im. cbn [fst snd].
+  pose proof (transform_re_aux a P beta om Hc Hs Hom) as Ha_re.
+  pose proof (transform_im_aux a P beta om Hc Hs Hom) as Ha_im.
+  pose proof (transform_re_aux b P beta om Hc Hs Hom) as Hb_re.
+  pose proof (transform_im_aux b P beta om Hc Hs Hom) as Hb_im.
+  split.
+  - apply (is_RInt_ext (fun tau => minus (term_tR a P beta tau * cos (om * tau)) (term_tR b P beta tau * sin (om * tau)))).
+    { intros tau _. rewrite term_t_parts. unfold cis, Cmult; simpl. reflexivity. }
+    replace ((- a * P + b * om) / (P ^ 2 + om ^ 2)) with (minus (- a * P / (P ^ 2 + om ^ 2)) (- b * om / (P ^ 2 + om ^ 2))).
+    + exact (is_RInt_minus (V := R_NormedModule) _ _ 0 beta _ _ Ha_re Hb_im).
+    + unfold minus, plus, opp; simpl. unfold Rdiv. ring.
+  - apply (is_RInt_ext (fun tau => plus (term_tR a P beta tau * sin (om * tau)) (term_tR b P beta tau * cos (om * tau)))).
+    { intros tau _. rewrite term_t_parts. unfold cis, Cmult; simpl. reflexivity. }
+    replace ((- a * om - b * P) / (P ^ 2 + om ^ 2)) with (plus (- a * om / (P ^ 2 + om ^ 2)) (- b * P / (P ^ 2 + om ^ 2))).
+    + exact (is_RInt_plus (V := R_NormedModule) _ _ 0 beta _ _ Ha_im Hb_re).
+    + unfold plus; simpl. unfold Rdiv. ring.
+Qed.
+
+(** the same for a whole term list: transform of G(tau) = G(i omega_n) *)
+Theorem lehmann_tau_is_transform : forall (l : list term) (beta : R) (n : Z), 0 < beta ->
+  let om := matsubara beta n in
+  is_RInt (fun tau => Re (lehmann_tau l beta tau * cis (om * tau))%C) 0 beta (Re (lehmann l (0, om))) /\
+  is_RInt (fun tau => Im (lehmann_tau l beta tau * cis (om * tau))%C) 0 beta (Im (lehmann l (0, om))).
+Proof.
+  intros l beta n Hb om. induction l as [|t l [IHre IHim]].
+  - unfold lehmann_tau, lehmann; simpl. split.
+    + apply (is_RInt_ext (fun _ => 0)); [intros x _; unfold Re, Im, Cmult, cis; simpl; ring|]. replace 0 with (scal (beta - 0) 0) at 2 by (unfold scal; simpl; unfold mult; simpl; ring).
+      apply @is_RInt_const.
+    + apply (is_RInt_ext (fun _ => 0)); [intros x _; unfold Re, Im, Cmult, cis; simpl; ring|]. replace 0 with (scal (beta - 0) 0) at 2 by (unfold scal; simpl; unfold mult; simpl; ring).
+      apply @is_RInt_const.
+  - destruct (tau_is_transform t beta n Hb) as [Hre Him]. fold om in Hre, Him.
+    unfold lehmann_tau, lehmann in *; simpl map; simpl csum. split.
+    + apply (is_RInt_ext (fun tau => plus (Re (term_t t beta tau * cis (om * tau))%C)
+                                         (Re (csum (map (fun t0 => term_t t0 beta tau) l) * cis (om * tau))%C))).
+      { intros tau _. unfold plus; simpl. ring. }
+      exact (is_RInt_plus (V := R_NormedModule) _ _ 0 beta _ _ Hre IHre).
+    + apply (is_RInt_ext (fun tau => plus (Im (term_t t beta tau * cis (om * tau))%C)
+                                         (Im (csum (map (fun t0 => term_t t0 beta tau) l) * cis (om * tau))%C))).
+      { intros tau _. unfold plus; simpl. ring. }
+      exact (is_RInt_plus (V := R_NormedModule) _ _ 0 beta _ _ Him IHim).
+Qed.
+
+(** ** gtau_nonpositive *)
+Lemma term_tR_nonpos : forall r P beta tau, 0 <= r -> term_tR r P beta tau <= 0.
+Proof.
+  intros r P beta tau Hr. rewrite term_tR_closed.
+  pose proof (exp_pos (- tau * P)). pose proof (exp_pos (- beta * P)).
+  assert (0 <= r * exp (- tau * P) / (1 + exp (- beta * P))).
+  { apply Rmult_le_pos; [nra|]. left. apply Rinv_0_lt_compat. lra. }
+  unfold Rdiv in *. nra.
+Qed.
+Lemma term_tR_zero : forall P beta tau, term_tR 0 P beta tau = 0.
+Proof. intros. rewrite term_tR_closed. unfold Rdiv. ring. Qed.
+
+(** plain form: for non-negative real residues G(tau) is real and <= 0 (for every tau, in particular on [0,beta]) *)
+Theorem lehmann_tau_nonpositive : forall (l : list term) (beta tau : R),
+  nonneg_residues l -> Im (lehmann_tau l beta tau) = 0 /\ Re (lehmann_tau l beta tau) <= 0.
+Proof.
+  intros l beta tau Hnn. unfold lehmann_tau. rewrite csum_Im, csum_Re, !map_map. split.
+  - replace 0 with (0 * rsum (map (fun _ : term => 0) l)) by ring. rewrite <- rsum_map_scal.
+    apply rsum_map_ext_in. intros t Ht. rewrite term_t_parts. simpl.
+    rewrite (proj1 (Hnn t Ht)), term_tR_zero. ring.
+  - assert (H : rsum (map (fun t => - Re (term_t t beta tau)) l) >= 0).
+    { apply Rle_ge. apply rsum_map_nonneg. intros t Ht. rewrite term_t_parts. simpl.
+      pose proof (term_tR_nonpos (Re (fst t)) (snd t) beta tau (proj2 (Hnn t Ht))). lra. }
+    replace (rsum (map (fun t => - Re (term_t t beta tau)) l)) with (- rsum (map (fun t => Re (term_t t beta tau)) l)) in H.
+    + lra.
+    + replace (- rsum (map (fun t => Re (term_t t beta tau)) l)) with (-1 * rsum (map (fun t => Re (term_t t beta tau)) l)) by ring.
+      rewrite <- rsum_map_scal. apply rsum_map_ext_in. intros; ring.
+Qed.
+
+Theorem gtau_nonpositive : forall D i (beta tau : R), weights_nonneg D ->
+  Im (Gtau D beta i i tau) = 0 /\ Re (Gtau D beta i i tau) <= 0.
+Proof. intros D i beta tau Hw. unfold Gtau. apply lehmann_tau_nonpositive. now apply diag_residues_nonneg. Qed.
+
+(** ** gtau_jump *)
+Lemma term_tR_jump : forall r P beta, term_tR r P beta 0 + term_tR r P beta beta = - r.
+Proof.
+  intros r P beta. rewrite !term_tR_closed. replace (- 0 * P) with 0 by ring. rewrite exp_0.
+  pose proof (exp_pos (- beta * P)). field. lra.
+Qed.
+
+Lemma term_t_jump : forall t beta, (term_t t beta 0 + term_t t beta beta)%C = (- fst t)%C.
+Proof.
+  intros [[a b] P] beta. rewrite !term_t_parts. simpl fst; simpl snd. unfold Cplus, Copp; simpl.
+  now rewrite !term_tR_jump.
+Qed.
+
+Theorem lehmann_tau_jump : forall (l : list term) (beta : R),
+  (lehmann_tau l beta 0 + lehmann_tau l beta beta)%C = (- residue_sum l)%C.
+Proof.
+  intros l beta. unfold lehmann_tau, residue_sum. rewrite <- csum_map_plus, <- csum_map_opp.
+  apply csum_map_ext_in. intros t _. apply term_t_jump.
+Qed.
+
+(** G_ij(0+) + G_ij(beta-) = - delta_ij *)
+Theorem gtau_jump : forall D i j (beta : R), car_diag D i j -> weights_normalised D ->
+  (Gtau D beta i j 0 + Gtau D beta i j beta)%C = (- delta i j)%C.
+Proof. intros D i j beta Hcar Hw. unfold Gtau. now rewrite lehmann_tau_jump, residue_sum_is_delta. Qed.
+
+(** ** gtau_beta_is_minus_n *)
+Lemma rsum_map_plus : forall {A} (f g : A -> R) l,
+  rsum (map (fun a => f a + g a) l) = rsum (map f l) + rsum (map g l).
+Proof. intros A f g l. induction l as [|a l IH]; simpl; [ring|]. rewrite IH. ring. Qed.
+
+Lemma rsum_swap : forall {A B} (f : A -> B -> R) (la : list A) (lb : list B),
+  rsum (map (fun a => rsum (map (fun b => f a b) lb)) la) =
+  rsum (map (fun b => rsum (map (fun a => f a b) la)) lb).
+Proof.
+  intros A B f la lb. induction la as [|a la IH]; simpl.
+  - induction lb as [|b lb IHb]; simpl; [reflexivity|]. rewrite <- IHb. ring.
+  - rewrite IH. now rewrite <- rsum_map_plus.
+Qed.
+
+Lemma term_beta_boltzmann : forall (c2 wn_ wm_ P beta : R),
+  wm_ = wn_ * exp (- beta * P) -> term_tR (c2 * (wn_ + wm_)) P beta beta = - (c2 * wm_).
+Proof.
+  intros c2 wn_ wm_ P beta Hb. rewrite term_tR_closed, Hb.
+  pose proof (exp_pos (- beta * P)). field. lra.
+Qed.
+
+(** G_ii(beta-) = - sum_{n,m} |c_nm|^2 w_m = - <n_i> *)
+Theorem gtau_beta_is_minus_n : forall D i (beta : R), boltzmann D beta ->
+  Gtau D beta i i beta = RtoC (- occupation D i).
+Proof.
+  intros D i beta Hb. unfold Gtau, lehmann_tau. rewrite sum_over_gterms.
+  set (d := dim D).
+  transitivity (csum (map (fun n => csum (map (fun m => RtoC (- ((Cmod (cop D i n m)) ^ 2 * wn D m))) (seq 0 d))) (seq 0 d))).
+  { apply csum_map_ext_in; intros n Hn. apply csum_map_ext_in; intros m Hm. apply in_seq in Hn. apply in_seq in Hm.
+    rewrite term_t_parts. simpl fst; simpl snd. rewrite residue_diag. simpl Re; simpl Im.
+    rewrite term_tR_zero. unfold RtoC. f_equal.
+    apply term_beta_boltzmann. apply Hb; unfold d in *; lia. }
+  transitivity (RtoC (rsum (map (fun n => rsum (map (fun m => - ((Cmod (cop D i n m)) ^ 2 * wn D m)) (seq 0 d))) (seq 0 d)))).
+  { rewrite <- csum_RtoC, map_map. apply csum_map_ext_in; intros n _. now rewrite <- csum_RtoC, map_map. }
+  f_equal. rewrite rsum_swap. unfold occupation. fold d.
+  replace (- rsum (map (fun m => wn D m * rsum (map (fun n => Cmod (cop D i n m) ^ 2) (seq 0 d))) (seq 0 d)))
+    with (-1 * rsum (map (fun m => wn D m * rsum (map (fun n => Cmod (cop D i n m) ^ 2) (seq 0 d))) (seq 0 d))) by ring.
+  rewrite <- rsum_map_scal. apply rsum_map_ext_in; intros m _.
+  rewrite <- Rmult_assoc, <- rsum_map_scal. apply rsum_map_ext_in; intros n _. ring.
+Qed.
+
+(** the occupation is the one the density matrix gives: Tr(rho c^+_i c_i) in the specification *)
+Theorem occupation_is_trace_rho : forall D i,
+  trace_rho C CNum (tabR (dim D) (wn D)) (matC (dim D) (ndens D i)) = RtoC (occupation D i).
+Proof.
+  intros D i. unfold trace_rho. rewrite ksum_is_csum, idx_matC, map_map. unfold occupation.
+  rewrite <- csum_RtoC, map_map. apply csum_map_ext_in; intros m Hm. apply in_seq in Hm.
+  simpl fst; simpl snd. unfold tabR. rewrite !nth_map_seq by lia. simpl.
+  rewrite RtoC_mult. f_equal. unfold ndens. rewrite <- csum_RtoC, map_map.
+  apply csum_map_ext_in; intros n _. destruct (cop D i n m) as [a b].
+  assert (Hm2 : (Cmod (a, b)) ^ 2 = a * a + b * b).
+  { unfold Cmod. simpl fst; simpl snd. rewrite <- Rsqr_pow2, Rsqr_sqrt; nra. }
+  change (Cmod (a, b) * (Cmod (a, b) * 1)) with (Cmod (a, b) ^ 2).
+  rewrite Hm2. unfold Cconj, Cmult, RtoC; simpl. f_equal; ring.
+Qed.
+
+(** ** the specification's G(tau) (PV.EDSpec.gf_tau, what the oracle evaluates) is the code's formula
+       under the Boltzmann relation *)
+Theorem Gtau_is_EDSpec_gf_tau : forall D i j (beta tau : R), boltzmann D beta ->
+  gf_tau C CNum (tabR (dim D) (En D)) (tabR (dim D) (wn D))
+     (matC (dim D) (cop D i)) (matC (dim D) (fun m n => Cconj (cop D j n m))) (RtoC tau)
+  = Gtau D beta i j tau.
+Proof.
+  intros D i j beta tau Hb. unfold gf_tau, Gtau, lehmann_tau. rewrite sum_over_gterms.
+  rewrite ksum_is_csum. rewrite idx_matC, map_map.
+  apply csum_map_ext_in. intros n Hn. apply in_seq in Hn. simpl fst; simpl snd.
+  rewrite ksum_is_csum, idx_map_seq, !map_map. apply csum_map_ext_in. intros m Hm. apply in_seq in Hm.
+  simpl fst; simpl snd. unfold tabR.
+  rewrite mget_matC by lia. rewrite !nth_map_seq by lia.
+  rewrite term_t_parts. simpl fst; simpl snd. rewrite !term_tR_closed. unfold residue, pole.
+  rewrite (Hb n m) by lia.
+  destruct (cop D i n m) as [a1 a2]. destruct (cop D j n m) as [b1 b2].
+  pose proof (exp_pos (- beta * (En D m - En D n))).
+  simpl. unfold Cmult, Copp, Cminus, Cplus, Cconj, RtoC, Re, Im; simpl.
+  replace (tau * (En D m + - En D n) - 0 * (0 + - 0)) with (tau * (En D m - En D n)) by ring.
+  replace (- (tau * (En D m - En D n))) with (- tau * (En D m - En D n)) by ring.
+  f_equal; field; lra.
+Qed.
+
+(** * The hypotheses are satisfiable by a non-trivial value: one fermionic mode (level e, inverse
+      temperature b): dimension 2, <0|c|1> = 1, Gibbs weights. *)
+Example one_mode_car : forall e b, car_diag (one_mode e b) 0 0.
+Proof.
+  intros e b n Hn. simpl in Hn. unfold delta; simpl.
+  destruct n as [|[|n]]; [| |lia]; simpl; unfold Cconj, Cmult, Cplus, RtoC; simpl; f_equal; ring.
+Qed.
+Example one_mode_normalised : forall e b, weights_normalised (one_mode e b).
+Proof.
+  intros e b. unfold weights_normalised; simpl. pose proof (exp_pos (- b * e)). field. lra.
+Qed.
+Example one_mode_nonneg : forall e b, weights_nonneg (one_mode e b).
+Proof.
+  intros e b n Hn. simpl in Hn. pose proof (exp_pos (- b * e)).
+  assert (0 < / (1 + exp (- b * e))) by (apply Rinv_0_lt_compat; lra).
+  destruct n as [|[|n]]; [| |lia]; simpl; unfold Rdiv; nra.
+Qed.
+Example one_mode_boltzmann : forall e b, boltzmann (one_mode e b) b.
+Proof.
+  intros e b n m Hn Hm. simpl in Hn, Hm. pose proof (exp_pos (- b * e)).
+  destruct n as [|[|n]]; [| |lia]; (destruct m as [|[|m]]; [| |lia]); simpl.
+  - replace (- b * (0 - 0)) with 0 by ring. rewrite exp_0. ring.
+  - replace (- b * (e - 0)) with (- b * e) by ring. field. lra.
+  - replace (- b * (0 - e)) with (- (- b * e)) by ring. rewrite exp_Ropp. field. lra.
+  - replace (- b * (e - e)) with 0 by ring. rewrite exp_0. ring.
+Qed.
+Example one_mode_transition : forall e b,
+  exists n m, (n < dim (one_mode e b))%nat /\ (m < dim (one_mode e b))%nat /\
+              cop (one_mode e b) 0 n m <> RtoC 0 /\ 0 < wn (one_mode e b) n + wn (one_mode e b) m.
+Proof.
+  intros e b. exists 0%nat, 1%nat. simpl. repeat split; try lia.
+  - intros H. apply (f_equal fst) in H. simpl in H. lra.
+  - pose proof (exp_pos (- b * e)). assert (0 < / (1 + exp (- b * e))) by (apply Rinv_0_lt_compat; lra).
+    unfold Rdiv. nra.
+Qed.
+(** and the statements are not vacuous there: G(z) = 1/(z - e) for this value *)
+Example one_mode_G : forall e b z, G (one_mode e b) 0 0 z = (RtoC 1 / (z - RtoC e))%C.
+Proof.
+  intros e b z. unfold G, lehmann, gterms; simpl. rewrite !term_z_eq. unfold residue, pole; simpl.
+  pose proof (exp_pos (- b * e)).
+  replace (1 / (1 + exp (- b * e)) + exp (- b * e) / (1 + exp (- b * e))) with 1 by (field; lra).
+  unfold Cdiv. replace (RtoC 0 * Cconj (RtoC 0))%C with (RtoC 0) by (unfold Cconj, Cmult, RtoC; simpl; f_equal; ring).
+  replace (RtoC 1 * Cconj (RtoC 1) * RtoC 1)%C with (RtoC 1) by (unfold Cconj, Cmult, RtoC; simpl; f_equal; ring).
+  replace (e - 0) with e by ring. ring.
+Qed.
